@@ -13,6 +13,8 @@ Simple(dct) == [k |-> "simple", dct |-> dct]
 SimpleA(dct, alpha) == [k |-> "simple", dct |-> dct, alpha |-> alpha]
 Struct(ps, bs) == [k |-> "struct", ps |-> ps, bs |-> bs]
 U8 == Std("uint", "NONE", 8, TRUE)
+\* a standard length type with a BIT-MASK (not condensed)
+StdM(base, bits, hilo, mask) == Std(base, "NONE", bits, hilo) @@ ("mask" :> mask)
 Value(n, bp, bi, dop) == [P("VALUE", n, bp, bi) EXCEPT !.dop = dop]
 ValueD(n, bp, bi, dop, dv) == [P("VALUE", n, bp, bi) EXCEPT !.dop = dop, !.dv = dv]
 Const(n, bp, bi, dct, v) == [P("CODED-CONST", n, bp, bi) EXCEPT !.dct = dct, !.cv = v]
@@ -114,6 +116,12 @@ Shapes(i) == {
     <<Value(Nm("d", i), -1, -1, SimpleA(U8, {IntV(1), IntV(6)})),
       Value(Nm("e", i), -1, -1, [k |-> "envdesc", ref |-> Nm("d", i), hasall |-> FALSE, all |-> <<>>,
                                  per |-> <<[codes |-> {1, 4}, ps |-> <<Value("x", -1, -1, SimpleA(U8, {IntV(4)}))>>]>>])>>,
+    \* bit masks: the low nibble of a byte shared with the next object, a 16 bit mask in both byte orders, a masked byte field
+    <<Value(Nm("m", i), -1, -1, SimpleA(StdM("uint", 8, TRUE, 15), {IntV(0), IntV(5), IntV(15), IntV(16), IntV(255)})),
+      Value(Nm("h", i), i, 4, SimpleA(Std("uint", "NONE", 4, TRUE), {IntV(9)}))>>,
+    <<Value(Nm("m", i), -1, -1, SimpleA(StdM("uint", 16, TRUE, 4080), {IntV(0), IntV(4080), IntV(256), IntV(1)}))>>,
+    <<Value(Nm("m", i), -1, -1, SimpleA(StdM("uint", 16, FALSE, 4080), {IntV(0), IntV(4080), IntV(256), IntV(1)}))>>,
+    <<Value(Nm("m", i), -1, -1, SimpleA(StdM("bytes", 16, TRUE, 61455), {BytesV(<<240, 15>>), BytesV(<<16, 1>>), BytesV(<<1, 16>>)}))>>,
     \* a DTC object: 24 bit trouble codes, of which the description defines three
     <<Value(Nm("d", i), -1, -1, [k |-> "dtc", dct |-> Std("uint", "NONE", 24, TRUE), codes |-> <<1, 66051, 16777215>>])>>,
     <<Value(Nm("d", i), -1, 4, [k |-> "dtc", dct |-> Std("uint", "NONE", 12, FALSE), codes |-> <<2, 291>>])>>,
